@@ -46,10 +46,9 @@ func Parse(fontInfo *sfnt.Font, input string) (lookups gtab.LookupList, err erro
 		}
 	}
 
-	cmap, err := fontInfo.CMapTable.GetBest()
-	if err != nil {
-		return nil, err
-	}
+	// A font without a usable cmap table can still be described using glyph
+	// names and numbers; only quoted strings need the character map.
+	cmap, _ := fontInfo.CMapTable.GetBest()
 
 	_, tokens := lex(input)
 	p := &parser{
@@ -1167,6 +1166,9 @@ func (p *parser) readGlyphList() []glyph.ID {
 			next = append(next, gid)
 
 		case itemString:
+			if p.cmap == nil {
+				p.fatal("font has no cmap table, cannot map %s to glyphs", item)
+			}
 			for _, r := range decodeString(item.val) {
 				gid := p.cmap.Lookup(r)
 				if gid == 0 {
